@@ -49,5 +49,9 @@ def run(chk, replay):
         frac = {2: 1.0, 3: 1.0, 4: 0.4}
     run_worlds(chk, replay, "MarchCubes", "MeshTrace", "c05-replay", ("mcu", "mco"), plans, frac,
                lambda d, b, l, n, sd: CFG % (d[0], d[1], d[2], b, l, n, sd), "nt")
-    if not replay and not chk.violations:
+    if replay and replay["replay"].get("kind") == "scene":
+        chk.seed = replay.get("seed", chk.seed)
+        chk.tier = replay.get("tier", chk.tier)
+        run_scenes(chk, "c05-scenes", only=replay["replay"]["obs"])
+    elif not replay and not chk.violations:
         run_scenes(chk, "c05-scenes")
